@@ -93,7 +93,9 @@ ChunkedWriteFails(s, e) ==
       chs    == e.chunks
       refuse == s.ended /\ e.inl > 0
   IN   Clause("C03", "a non-empty write after the end must be refused", refuse => ~ok)
-  \cup Clause("C03", "a permitted write was refused", ~refuse => ok)
+  \* (with less room than the smallest chunk needs, refusing the write outright instead of answering (0, 0) is not
+  \* excluded by the statement; a refused write must still change nothing, see below)
+  \cup Clause("C03", "a permitted write was refused", ~refuse => (ok \/ (e.inl > 0 /\ e.outl < 6)))
   \cup (IF ~ok
         THEN Clause("C03", "a refused write changed the finished flag", e.ready = s.ready)
         ELSE
